@@ -295,7 +295,9 @@ func runC08(cs c08Case) *Outcome {
 	}
 
 	traceCfg := func(c c08Call) *evmtypes.TraceConfig {
-		tc := &evmtypes.TraceConfig{Tracer: c.Tracer, DisableStack: c.Flags&1 != 0, DisableStorage: c.Flags&2 != 0, EnableMemory: c.Flags&4 != 0, EnableReturnData: c.Flags&8 != 0, Debug: c.Flags&16 != 0, Limit: c.Limit}
+		// the trace deadline is wall-clock (5 s by default): on a busy machine a trace may or may not finish in time,
+		// which is availability, not state; the requests ask for a deadline that cannot matter
+		tc := &evmtypes.TraceConfig{Timeout: "900s", Tracer: c.Tracer, DisableStack: c.Flags&1 != 0, DisableStorage: c.Flags&2 != 0, EnableMemory: c.Flags&4 != 0, EnableReturnData: c.Flags&8 != 0, Debug: c.Flags&16 != 0, Limit: c.Limit}
 		if c.Tracer == "callTracer" && c.Flags&1 != 0 {
 			tc.TracerJsonConfig = `{"onlyTopCall":true}`
 		}
